@@ -332,9 +332,13 @@ def nFiles (s : St) (dir : String) : Option (List Nat) := (s.world.get dir).map 
   == ["=0", "notfound", "=X", "notfound", "=Y", "=5", "=6"]
 #guard nFiles exS "d" == some [0, 1]
 #guard nFiles (hrun exS exHist) "d" == some [0, 1, 2, 3, 4, 5, 6]
-#guard (nFiles (hrun exS exHist) "d-merge").isSome
+-- the merge succeeded: its finished output is there after the backup to "bk" (`exHist.take 11`) …
+#guard (nFiles (hrun exS (exHist.take 11)) "d-merge").isSome
+#guard ((hrun exS (exHist.take 11)).world.get "d-merge").map (fun d => d.marker.isSome) == some true
+-- … and `Backup` onto the data directory itself removes it (`removeStaleMergeDir`, repair 88d026d: "d-merge" is
+-- the merge directory next to the destination "d"); the mapping does not depend on it
+#guard nFiles (hrun exS exHist) "d-merge" == none
 #guard nFiles (hrun exS exHist) "bk" == some [0, 1, 2, 3, 4, 5, 6]   -- the backup, taken before the last `Put`
-#guard ((hrun exS exHist).world.get "d-merge").map (fun d => d.marker.isSome) == some true
 #guard (match (hrun exS exHist).db with | some db => db.batch.isNone | none => false)
 -- the forward iterator without prefix: its transcript over the moving database …
 #guard exTranscript "" false ==
